@@ -1150,4 +1150,55 @@ theorem vorgOut_reader (hdr : Bytes) (kept : List (Nat × Nat)) (hh : hdr.length
     · rw [List.getElem?_eq_none (by simp; omega), List.getElem?_eq_none (by omega)]
   · rw [List.append_assoc, u16At_append_left _ _ _ (by omega)]
 
+
+/-! ## the name counter cannot run over: at most 65536 − 258 distinct custom names -/
+
+theorem nodup_subset_length {α : Type} [DecidableEq α] : ∀ (l m : List α), l.Pairwise (· ≠ ·) →
+    (∀ x ∈ l, x ∈ m) → l.length ≤ m.length := by
+  intro l
+  induction l with
+  | nil => intro m _ _; simp
+  | cons x rest ih =>
+    intro m hd hsub
+    simp only [List.pairwise_cons] at hd
+    have hx : x ∈ m := hsub x (by simp)
+    have hrest : ∀ y ∈ rest, y ∈ m.erase x := by
+      intro y hy
+      have hne : y ≠ x := fun e => hd.1 y hy e.symm
+      exact (List.mem_erase_of_ne hne).mpr (hsub y (List.mem_cons_of_mem _ hy))
+    have := ih (m.erase x) hd.2 hrest
+    rw [List.length_erase_of_mem hx] at this
+    have hpos : 0 < m.length := List.length_pos_of_mem hx
+    simp only [List.length_cons]; omega
+
+/-- every emitted string needs its own glyphNameIndex value in 258..=65535 of the source table, so the pool has at
+most 65278 strings and the `u16` counter `i` never wraps before its last use -/
+theorem pool_size_bound (inp : PostIn) (hb : ∀ b ∈ inp.t, b < 256) : (v2tail inp).strs.length ≤ 65278 := by
+  unfold v2tail
+  cases hm : inp.maxOld with
+  | none => simp
+  | some m =>
+    simp only
+    obtain ⟨hinv, _, _, _, _, hsrc, _⟩ := runPool_spec (jobs2 (pstrAll (stringData inp.t)) (oldToNew inp.n2o) (indexPairs inp.t m))
+      Pool.init poolInv_init
+    generalize (runPool Pool.init (jobs2 (pstrAll (stringData inp.t)) (oldToNew inp.n2o) (indexPairs inp.t m))).2 = pf at hinv hsrc
+    have hsub : ∀ x ∈ pf.strs.map some, x ∈ (pstrAll (stringData inp.t)).take 65278 := by
+      intro x hx
+      simp only [List.mem_map] at hx
+      obtain ⟨s, hs, rfl⟩ := hx
+      rcases hsrc s hs with h0 | ⟨new, hj, _⟩
+      · simp [Pool.init] at h0
+      · obtain ⟨old, ni, hp, hge, _, hget⟩ := (mem_jobs2 _ _ _ _ _).mp hj
+        have hni := ((mem_indexPairs _ _ _ _).mp hp).2.2
+        have hlt : ni < 65536 := by rw [hni]; exact u16At_lt _ hb _
+        have : ((pstrAll (stringData inp.t)).take 65278)[ni - 258]? = some (some s) := by
+          rw [List.getElem?_take]; simp only [show ni - 258 < 65278 by omega, if_true]; exact hget
+        exact List.mem_of_getElem? this
+    have hd : (pf.strs.map some).Pairwise (· ≠ ·) := by
+      rw [List.pairwise_map]
+      exact hinv.nodup.imp (fun h e => h (Option.some.inj e))
+    have := nodup_subset_length _ _ hd hsub
+    simp only [List.length_map, List.length_take] at this
+    omega
+
 end FontVerif.SubsetPost
